@@ -12,10 +12,30 @@ type HashingReaderWrapper struct {
 	Reader             *bufio.Reader
 	CalculateSignature bool
 	hash               hash.Hash
+	// number of bytes consumed so far, shared between all copies of the wrapper
+	bytesRead *int64
+}
+
+func NewHashingReaderWrapper(reader *bufio.Reader) HashingReaderWrapper {
+	return HashingReaderWrapper{
+		Reader:    reader,
+		bytesRead: new(int64),
+	}
+}
+
+// Position returns the number of bytes which were consumed so far (0 if the wrapper was not created by NewHashingReaderWrapper)
+func (t *HashingReaderWrapper) Position() int64 {
+	if t.bytesRead == nil {
+		return 0
+	}
+	return *t.bytesRead
 }
 
 func (t *HashingReaderWrapper) Read(bytes []byte) (int, error) {
 	byteCount, err := t.Reader.Read(bytes)
+	if t.bytesRead != nil && byteCount > 0 {
+		*t.bytesRead += int64(byteCount)
+	}
 	if t.CalculateSignature == true && err == nil {
 		if byteCount == len(bytes) {
 			t.hash.Write(bytes)
@@ -50,7 +70,10 @@ func (t HashingReaderWrapper) Reset(reader io.Reader) {
 }
 
 func (t *HashingReaderWrapper) Discard(offset int64) error {
-	_, err := t.Reader.Discard(int(offset))
+	discarded, err := t.Reader.Discard(int(offset))
+	if t.bytesRead != nil && discarded > 0 {
+		*t.bytesRead += int64(discarded)
+	}
 	if err != nil {
 		return err
 	}
